@@ -250,4 +250,9 @@ CLAIMS['C12'] = {
     'note': COMMON_NOTE + "PARTIAL BY NATURE: stack depth, the allocator, and panics inside syn / proc_macro2 / prettyplease / quote are runtime behaviour no executable model of pyxis exhibits; only the fuzzing part looks at them. 'Time proportional to input' is proved as iteration bounds only. vftable sizes above 10000 slots are not generated.",
     'technique': 'Lean 4 proof (global registry invariant; no reachable panic site; termination measure) + isolated fuzzing of the implementation + differential outcome-class correspondence',
 }
+# whole-run forms of the per-item theorems (Props/CaseLift.lean, Props/CaseLift2.lean)
+for _id in ('C01', 'C03', 'C04', 'C05', 'C06', 'C07', 'C08', 'C11', 'C13', 'C14', 'C15', 'C16', 'C17'):
+    CLAIMS[_id]['text'] += (" WHOLE RUN: every per-item theorem above is also proved as `case_<name>` (Props/CaseLift.lean, Props/CaseLift2.lean) for every item of the "
+                            "final registry and every emitted file of an ARBITRARY accepted bounded case, through a provenance invariant (each resolved entry is the result of an "
+                            "accepted build of the definition declared under its path, or a generated vftable struct) carried through new / add_module / every attempt / every round.")
 NOT_CLAIMED = {}
